@@ -369,10 +369,16 @@ def run_item(item):
     connlib.quiet_driver_logs()
     part = Part()
     kind = item[0]
+    if connlib.too_many_livelocks():
+        part.cap('work item %r skipped: several reads never returned in this worker (reported as C06/livelock)' % (item[:3],))
+        return part
     if kind == 'small':
         _, name, lz4, anywhere, nearb, k, n = item
         st = get_stream('small', name, lz4)
         for cuts in small_splittings(st, anywhere, nearb)[k::n]:
+            if connlib.too_many_livelocks():
+                part.cap('stopped early: several reads never returned (reported as C06/livelock)')
+                break
             receive(st, cuts, part)
             part.mark_nontrivial('%s/%s/%d-cuts' % (st.name, lz4, min(len(cuts), 5)))
     elif kind == 'full':
@@ -380,12 +386,18 @@ def run_item(item):
         st = get_stream('small', name, lz4)
         L = len(st.data)
         for m in range(k, 1 << (L - 1), n):
+            if connlib.too_many_livelocks():
+                part.cap('stopped early: several reads never returned (reported as C06/livelock)')
+                break
             receive(st, connlib.cuts_of_mask(m, L), part)
         part.mark_nontrivial('%s/%s/all-compositions' % (st.name, lz4))
     elif kind == 'big':
         _, name, lz4, form, r1, r2, k, n = item
         st = get_stream('big', name, lz4, form)
         for cuts in big_splittings(st, r1, r2)[k::n]:
+            if connlib.too_many_livelocks():
+                part.cap('stopped early: several reads never returned (reported as C06/livelock)')
+                break
             receive(st, cuts, part)
             part.mark_nontrivial('%s/%s/%d-cuts' % (st.name, lz4, len(cuts)))
     elif kind == 'flip':
@@ -394,6 +406,9 @@ def run_item(item):
         L = len(st.data)
         splits = list(connlib.k_cut_splits(L, kcuts))
         for bit in range(k, L * 8, n):
+            if connlib.too_many_livelocks():
+                part.cap('stopped early: several reads never returned (reported as C06/livelock)')
+                break
             for cuts in splits:
                 receive(st, cuts, part, flip=bit)
             part.mark_nontrivial('flip/%s/%s/%d' % (st.name, lz4, bit))
